@@ -386,3 +386,34 @@ Lemma q0_trace f :
   | None => False
   end.
 Proof. vm_compute. reflexivity. Qed.
+
+(* ---------------------------------------------------------------- the documented level table *)
+
+(* `aldor -h Q` prints which optimisation is on at which level.  The table of optfoam.c agrees
+   with it row by row, except for the rows listed here (cc-fnonstd: documented as on at -Q4,
+   never switched on by a level in the code). *)
+Definition help_exceptions : list string := ["cc-fnonstd"].
+
+Definition help_row_ok (r : row) : Prop :=
+  match find (fun p => String.eqb (fst p) (rname r)) help_levels with
+  | Some p => In (rname r) help_exceptions \/ snd p = map (fun v => negb (v =? 0)) (rvals r)
+  | None => forallb (fun v => v =? 0) (rvals r) = true      (* undocumented rows are off at every level *)
+  end.
+
+Lemma help_agrees_rows : Forall help_row_ok flag_rows.
+Proof.
+  walk_list flag_rows ltac:(unfold help_row_ok; vm_compute; first [reflexivity | right; reflexivity | left; tauto]).
+Qed.
+
+Lemma help_agrees r : In r opt_ctl -> rnat r = NFlag -> help_row_ok r.
+Proof.
+  intros Hin Hn. pose proof help_agrees_rows as H. rewrite Forall_forall in H. apply H.
+  assert (E : flag_rows = filter is_flag opt_ctl) by (vm_compute; reflexivity).
+  rewrite E. apply filter_In. split; [exact Hin|]. unfold is_flag. rewrite Hn. reflexivity.
+Qed.
+
+Lemma help_default_agrees : help_default = default_level /\ match help_O, std_opt with
+                                                             | Some n, Some s => s = digit n
+                                                             | _, _ => False
+                                                             end.
+Proof. vm_compute. split; reflexivity. Qed.
